@@ -73,6 +73,7 @@ type VC struct {
 	nowLast *Term
 	failed  string // unsupported reason
 	ghostVars map[string]*Term
+	accessed  map[string]bool
 }
 
 func (vc *VC) fresh(prefix string, s *Sort) *Term {
@@ -135,6 +136,10 @@ func (vc *VC) famGet(st *State, key string, s *Sort) *Term {
 	} else {
 		vc.famSort[key] = s
 	}
+	if vc.accessed == nil {
+		vc.accessed = map[string]bool{}
+	}
+	vc.accessed[key] = true
 	if t, ok := st.heap[key]; ok {
 		return t
 	}
@@ -769,6 +774,12 @@ func (vc *VC) mergeStates(sts []*State, conds []*Term, hint string) *State {
 		}
 		if same {
 			n.heap[k] = ts[0]
+			continue
+		}
+		if !vc.accessed[k] && !strings.HasPrefix(k, "$") {
+			// never read or written directly so far (only havocked by callee footprints): merge to a fresh
+			// unconstrained version (over-approximation, keeps queries small)
+			n.heap[k] = vc.fresh("H$"+k, ts[0].Sort)
 			continue
 		}
 		m := vc.fresh("H$"+k, ts[0].Sort)
